@@ -112,7 +112,7 @@ pub fn worker(prop: &str, seed: u64, w: u64, nw: u64, count: u64, out_path: &str
             let _ = f.write_at(format!("{:<20}", i).as_bytes(), 0);
         }
         unsafe {
-            libc::alarm(60);
+            libc::alarm(25);
         }
         let sc = profiles::generate(prop, seed, i);
         let ev = oracle::evaluate(prop, &sc);
@@ -314,8 +314,12 @@ pub fn check(prop: &str, tier: &str) -> i32 {
     // worker deaths: re-run the single index in a fresh process to confirm
     let mut exit = 0;
     let mut nviol = 0u64;
-    for (idx, msg) in &crashed {
+    for (ci, (idx, msg)) in crashed.iter().enumerate() {
         eprintln!("mdsim: {} (index {})", msg, idx);
+        if ci >= 3 {
+            // every worker stops at its first fatal index; three confirmed re-runs are enough to report
+            continue;
+        }
         if *idx == u64::MAX {
             eprintln!("HARNESS-ERROR: worker failure without a current index");
             return 2;
@@ -462,7 +466,7 @@ pub fn replay(path: &str) -> i32 {
 
 pub fn one(prop: &str, seed: u64, idx: u64) -> i32 {
     unsafe {
-        libc::alarm(60);
+        libc::alarm(25);
     }
     let sc = profiles::generate(prop, seed, idx);
     let ev = oracle::evaluate(prop, &sc);
